@@ -17,6 +17,7 @@ import (
 
 	"verif/internal/kinds"
 	"verif/internal/load"
+	"verif/internal/norm"
 )
 
 // Impl is one implementation of ast.Visitor.
@@ -28,6 +29,31 @@ type Impl struct {
 	RecvT   *types.Named
 	Kinds   *kinds.Table
 	Methods map[string]*ast.FuncDecl // all methods on Recv by name
+
+	nz *norm.N
+	strEnv map[types.Object][]strPart // dumper: local string variables on the current path
+}
+
+// UseNorm sets up the normaliser (package norm) for the bodies this
+// implementation's rules look at; keep names the methods and functions of the
+// package that the rule interprets itself (its primitives).
+func (im *Impl) UseNorm(keep func(fn *types.Func) bool, opt norm.Options) {
+	opt.Keep = keep
+	im.nz = norm.New(im.Pkg, opt)
+}
+
+// Body returns the body of fd in canonical shape (see package norm), or the
+// body itself when no normaliser was set up.
+func (im *Impl) Body(fd *ast.FuncDecl) *ast.BlockStmt {
+	if im.nz == nil {
+		return fd.Body
+	}
+	return im.nz.Body(fd)
+}
+
+// keepNames builds a keep predicate from a set of function / method names of the package.
+func keepNames(names map[string]bool) func(fn *types.Func) bool {
+	return func(fn *types.Func) bool { return names[fn.Name()] }
 }
 
 // FindImpl locates type recv in package rel and collects its methods.
@@ -226,3 +252,116 @@ func sortedKeys(m map[string]bool) []string {
 }
 
 var _ = token.NoPos
+
+// lenTest recognises a comparison of len(X) with 0 or 1 that says whether X is
+// empty: `len(X) > 0`, `len(X) != 0`, `len(X) >= 1`, `0 < len(X)` (true: non-empty)
+// and `len(X) == 0`, `len(X) < 1`, `len(X) <= 0` (true: empty). It returns X and
+// whether a true outcome means non-empty.
+func (im *Impl) lenTest(cond ast.Expr) (x ast.Expr, nonEmptyWhenTrue bool, ok bool) {
+	be, isBin := unparen(cond).(*ast.BinaryExpr)
+	if !isBin {
+		return nil, false, false
+	}
+	lenArg := func(e ast.Expr) ast.Expr {
+		c, ok := unparen(e).(*ast.CallExpr)
+		if !ok || len(c.Args) != 1 {
+			return nil
+		}
+		id, ok := c.Fun.(*ast.Ident)
+		if !ok || id.Name != "len" {
+			return nil
+		}
+		if _, isB := im.info().Uses[id].(*types.Builtin); !isB {
+			return nil
+		}
+		return c.Args[0]
+	}
+	constOf := func(e ast.Expr) (int64, bool) {
+		tv, ok := im.info().Types[e]
+		if !ok || tv.Value == nil {
+			return 0, false
+		}
+		return constant.Int64Val(constant.ToInt(tv.Value))
+	}
+	op := be.Op
+	l, r := be.X, be.Y
+	if lenArg(l) == nil && lenArg(r) != nil {
+		l, r = r, l
+		op = map[token.Token]token.Token{token.LSS: token.GTR, token.GTR: token.LSS, token.LEQ: token.GEQ, token.GEQ: token.LEQ, token.EQL: token.EQL, token.NEQ: token.NEQ}[op]
+	}
+	arg := lenArg(l)
+	c, isConst := constOf(r)
+	if arg == nil || !isConst {
+		return nil, false, false
+	}
+	switch {
+	case op == token.GTR && c == 0, op == token.GEQ && c == 1, op == token.NEQ && c == 0:
+		return arg, true, true
+	case op == token.EQL && c == 0, op == token.LSS && c == 1, op == token.LEQ && c == 0:
+		return arg, false, true
+	}
+	return nil, false, false
+}
+
+// canonNames: receiver → "recv", i-th parameter → "p<i>" (1-based).
+func (im *Impl) canonNames(fd *ast.FuncDecl) map[types.Object]string {
+	return CanonNames(im.info(), fd)
+}
+
+func CanonNames(info *types.Info, fd *ast.FuncDecl) map[types.Object]string {
+	m := map[types.Object]string{}
+	if fd.Recv != nil && len(fd.Recv.List) == 1 && len(fd.Recv.List[0].Names) == 1 {
+		if o := info.Defs[fd.Recv.List[0].Names[0]]; o != nil {
+			m[o] = "recv"
+		}
+	}
+	i := 0
+	for _, f := range fd.Type.Params.List {
+		if len(f.Names) == 0 {
+			i++
+		}
+		for _, nm := range f.Names {
+			i++
+			if o := info.Defs[nm]; o != nil {
+				m[o] = fmt.Sprintf("p%d", i)
+			}
+		}
+	}
+	// `switch x := p.(type)`: the per-clause objects of x stand for p
+	if fd.Body != nil {
+		ast.Inspect(fd.Body, func(nd ast.Node) bool {
+			ts, ok := nd.(*ast.TypeSwitchStmt)
+			if !ok {
+				return true
+			}
+			as, ok := ts.Assign.(*ast.AssignStmt)
+			if !ok || len(as.Rhs) != 1 {
+				return true
+			}
+			ta, ok := as.Rhs[0].(*ast.TypeAssertExpr)
+			if !ok {
+				return true
+			}
+			id, ok := unparen(ta.X).(*ast.Ident)
+			if !ok {
+				return true
+			}
+			nm, ok := m[info.Uses[id]]
+			if !ok {
+				return true
+			}
+			for _, c := range ts.Body.List {
+				if o := info.Implicits[c]; o != nil {
+					m[o] = nm
+				}
+			}
+			return true
+		})
+	}
+	return m
+}
+
+// canon renders e independently of how fd names its receiver and parameters and of named constants.
+func (im *Impl) canon(fd *ast.FuncDecl, e ast.Expr) string {
+	return norm.Canon(im.info(), e, im.canonNames(fd))
+}
